@@ -133,6 +133,9 @@ example : ((changeTo exNew exEnv exState).1.aevents.filter
 -- an accepted attempt over a running config
 example : (changeTo ⟨0, [], [⟨0, 5, 0, [2], []⟩]⟩ exEnv exState).2 = .ok ∧
     answers (changeTo ⟨0, [], [⟨0, 5, 0, [2], []⟩]⟩ exEnv exState).1 = [(2, 5)] := by decide
+-- the admin routers cannot be provisioned: rejected before anything starts, nothing moves
+example : (changeTo ⟨0, [], [⟨0, 5, 0, [2], []⟩]⟩ ⟨true, false, 2, [], [0], [0]⟩ exState).2 = .errAdmin ∧
+    answers (changeTo ⟨0, [], [⟨0, 5, 0, [2], []⟩]⟩ ⟨true, false, 2, [], [0], [0]⟩ exState).1 = [(0, 1), (1, 2)] := by decide
 -- "unchanged"
 example : (changeTo exOld ⟨false, false, 0, [], [], []⟩ exState).2 = .same := by decide
 -- a history with rejected attempts in the middle satisfies the hypothesis of history_atomic_partial
